@@ -182,9 +182,118 @@ fn run_thread(s: Arc<Shared>, tid: u64, prog: Vec<Step>) -> Vec<Value> {
     ev
 }
 
+/// creation bursts: all threads allocate handles at the same instant (released by one flag), then read their own objects back and
+/// free them. The handles of one burst must be pairwise different, each must resolve to the object its creator stored, and a
+/// freed handle must no longer resolve. Small bursts are also handed to the model's history checker.
+fn burst(revreg: &Value, n_threads: usize, per_thread: usize, first_obj: u64, record: bool) -> (Vec<Value>, Vec<String>) {
+    use std::sync::atomic::AtomicBool;
+    let shared = Arc::new(Shared { ticket: AtomicU64::new(1), slots: vec![], meta: vec![], revreg: revreg.clone() });
+    let go = Arc::new(AtomicBool::new(false));
+    let threads: Vec<_> = (0..n_threads)
+        .map(|t| {
+            let s = shared.clone();
+            let go = go.clone();
+            std::thread::spawn(move || {
+                let mut ev = vec![];
+                let mut problems: Vec<String> = vec![];
+                let mut mine: Vec<(usize, u64)> = Vec::with_capacity(per_thread);
+                while !go.load(Ordering::Acquire) {
+                    std::hint::spin_loop();
+                }
+                for k in 0..per_thread {
+                    let id = first_obj + (t * per_thread + k) as u64;
+                    let inv = tick(&s);
+                    let h = unsafe { create(&s, TY_SCHEMA, id) };
+                    let res = tick(&s);
+                    if record {
+                        ev.push(json!({"thread": t, "op": "create", "handle": h, "want_ty": null, "inv": inv, "res": res, "result": if h != 0 { "ok" } else { "invalid" }, "ty": TY_SCHEMA, "obj": id}));
+                    }
+                    mine.push((h, id));
+                }
+                for (h, id) in &mine {
+                    let mut buf = ByteBuffer { len: 0, data: std::ptr::null_mut() };
+                    let inv = tick(&s);
+                    let rc = unsafe { anoncreds_object_get_json(*h, &mut buf) };
+                    let res = tick(&s);
+                    let got = if rc == 0 {
+                        let bytes = unsafe { std::slice::from_raw_parts(buf.data, buf.len as usize) }.to_vec();
+                        unsafe { anoncreds_buffer_free(buf) };
+                        obj_id_from_json(TY_SCHEMA, &bytes)
+                    } else {
+                        None
+                    };
+                    if got != Some(*id) && problems.len() < 3 {
+                        problems.push(format!("handle {h} created for object {id} resolves to {got:?}"));
+                    }
+                    if record {
+                        ev.push(json!({"thread": t, "op": "json", "handle": h, "want_ty": null, "inv": inv, "res": res, "result": if rc == 0 { "ok" } else { "invalid" }, "ty": if rc == 0 { json!(TY_SCHEMA) } else { Value::Null }, "obj": got}));
+                    }
+                }
+                (ev, problems, mine)
+            })
+        })
+        .collect();
+    go.store(true, Ordering::Release);
+    let mut events = vec![];
+    let mut problems = vec![];
+    let mut all: Vec<(usize, u64)> = vec![];
+    for t in threads {
+        if let Ok((e, p, m)) = t.join() {
+            events.extend(e);
+            problems.extend(p);
+            all.extend(m);
+        }
+    }
+    let mut hs: Vec<usize> = all.iter().map(|x| x.0).collect();
+    hs.sort();
+    if hs.iter().any(|h| *h == 0) {
+        problems.push("create returned handle 0".into());
+    }
+    if let Some(w) = hs.windows(2).find(|w| w[0] == w[1]) {
+        problems.push(format!("handle {} returned by two creations", w[0]));
+    }
+    // free everything, then nothing may resolve any more
+    for (h, _) in &all {
+        unsafe { anoncreds_object_free(*h) };
+    }
+    for (h, _) in all.iter().take(2000) {
+        let mut buf = ByteBuffer { len: 0, data: std::ptr::null_mut() };
+        if unsafe { anoncreds_object_get_json(*h, &mut buf) } == 0 {
+            unsafe { anoncreds_buffer_free(buf) };
+            problems.push(format!("handle {h} still resolves after it was freed"));
+            break;
+        }
+    }
+    events.sort_by_key(|e| e["inv"].as_u64());
+    (events, problems)
+}
+
 pub fn run(w: &World, rng: &mut Rng, thorough: bool, out: &mut Out) -> Vec<(Value, Value)> {
     let mut cases = vec![];
     let revreg = serde_json::to_value(&w.def("R").regs[0].def).unwrap();
+    // creation bursts first (object ids from 10^9 up, disjoint from the mixed workloads below)
+    let mut first_obj = 1_000_000_000u64;
+    let bursts: Vec<(usize, usize, bool)> = if thorough {
+        (0..40).map(|i| (if i % 2 == 0 { 16 } else { 8 }, 20_000, false)).chain((0..20).map(|_| (16, 60, true))).collect()
+    } else {
+        vec![(16, 20_000, false), (8, 20_000, false), (16, 20_000, false), (16, 60, true), (8, 100, true), (16, 40, true)]
+    };
+    for (bi, (nt, per, record)) in bursts.into_iter().enumerate() {
+        let (events, problems) = burst(&revreg, nt, per, first_obj, record);
+        first_obj += (nt * per) as u64;
+        out.count_n("c18:burst:creations", (nt * per) as u64);
+        out.count(&format!("c18:burst:threads:{nt}"));
+        for p in problems.iter().take(2) {
+            out.oracle_fail("handle store: creation burst", &json!({"fam":"c18.burst","sig":"","burst":bi,"threads":nt,"per_thread":per}), &json!({"problem": p}));
+        }
+        if problems.is_empty() && !record {
+            out.oracle_only += 1;
+        }
+        if record {
+            out.count_n("c18:events", events.len() as u64);
+            cases.push((json!({"op":"store_history","fam":"c18.history","events":events,"threads":nt,"nt":true}), json!(true)));
+        }
+    }
     let workloads = if thorough { 1500 } else { 120 };
     let mut next_obj = 1u64;
     for wi in 0..workloads {
